@@ -573,7 +573,8 @@ class CSVWriter extends rbql.RBQLOutputWriter {
 
     simple_join(fields) {
         var res = fields.join(this.delim);
-        if (fields.join('').indexOf(this.delim) != -1) {
+        let delim = this.delim;
+        if (fields.some(function(v) { return String(v).indexOf(delim) != -1; })) { // Check the fields one by one: the delimiter may also emerge at the junction of two fields
             this.delim_in_simple_output = true;
         }
         return res;
